@@ -72,6 +72,17 @@ MUTANTS = [
     dict(id="c08-coins-from-pools-root", prop="C08", file=S, find="CoinMapping::new(db.get_tree(blk.header.coins_hash.0).unwrap());", repl="CoinMapping::new(db.get_tree(blk.header.pools_hash.0).unwrap());", expect="R1/field/coins"),
     dict(id="c08-drop-action", prop="C08", file=S, find="        Self(state, blk.proposer_action)", repl="        Self(state, None)", expect="R1/proposer_action"),
     dict(id="c08-txs-empty", prop="C08", file=S, find="        let transactions = blk.transactions.iter().cloned().collect();\n        let state = UnsealedState {", repl="        let transactions = Default::default();\n        let state = UnsealedState {", expect="R2/transactions"),
+    # ---------------------------------------------------------------- C14 (against the repaired tree)
+    dict(id="c14-early-some-empty", prop="C14", file=S, find="        // first check all the signatures\n        for (k, sig) in cproof.iter() {", repl="        if cproof.is_empty() { return Some(ConfirmedState { state: self.clone(), cproof }); }\n        for (k, sig) in cproof.iter() {", expect="R1/some-after-loop"),
+    dict(id="c14-continue-on-bad-sig", prop="C14", file=S, find="            if !k.verify(&self.header().hash(), sig) {\n                return None;\n            }", repl="            if !k.verify(&self.header().hash(), sig) {\n                continue;\n            }", expect="R1/verify/false"),
+    dict(id="c14-le", prop="C14", file=S, find="num::BigInt::from(present_votes) * 3 > num::BigInt::from(total_votes) * 2", repl="num::BigInt::from(present_votes) * 3 < num::BigInt::from(total_votes) * 2", expect="R2/threshold/polarity"),
+    dict(id="c14-half", prop="C14", file=S, find="num::BigInt::from(present_votes) * 3 > num::BigInt::from(total_votes) * 2", repl="num::BigInt::from(present_votes) * 2 > num::BigInt::from(total_votes) * 1", expect="R2/threshold/ratio"),
+    dict(id="c14-floor-present", prop="C14", file=S, find="num::BigInt::from(present_votes) * 3 > num::BigInt::from(total_votes) * 2", repl="present_votes / 2 * 3 > total_votes", expect="R2/threshold/rounding"),
+    dict(id="c14-sign-other-message", prop="C14", file=S, find="if !k.verify(&self.header().hash(), sig) {", repl="if !k.verify(&self.header().previous, sig) {", expect="R1/verify/message"),
+    dict(id="c14-wrong-epoch", prop="C14", file=S, find="let my_epoch = self.0.height.epoch();", repl="let my_epoch = self.0.height.epoch() + 1;", expect="R3/"),
+    dict(id="c14-no-threshold", prop="C14", file=S, find="if num::BigInt::from(present_votes) * 3 > num::BigInt::from(total_votes) * 2 {", repl="if present_votes > 0 || total_votes == 0 {", expect="R2/"),
+    dict(id="c14-q-hash-once", prop="C14", file=S, find="        for (k, sig) in cproof.iter() {\n            if !k.verify(&self.header().hash(), sig) {", repl="        let hh = self.header().hash();\n        for (k, sig) in cproof.iter() {\n            if !k.verify(&hh, sig) {", expect=None),
+    dict(id="c14-q-u128-exact", prop="C14", file=S, find="if num::BigInt::from(present_votes) * 3 > num::BigInt::from(total_votes) * 2 {", repl="if num::BigInt::from(total_votes) * 2 < num::BigInt::from(present_votes) * 3 {", expect=None),
     # quiet ones
     dict(id="c05-q-le", prop="C05", file=A, find="if tx.fee < min_fee {", repl="if !(tx.fee >= min_fee) {", expect=None),
     dict(id="c05-q-div65536", prop="C05", file=S, find="CoinValue(self.fee_pool.0 >> 16)", repl="CoinValue(self.fee_pool.0 / 65536)", expect=None),
